@@ -198,9 +198,18 @@ def run(ctx, rep):
     fcl = []
     for bb, t in filt:
         for a_ in t["args"][1:]:
-            for d_ in CR.defs().get(op_local(a_), []):
-                if d_[0] == "stmt" and d_[4][0] == "agg" and d_[4][1][0] == "closure" and d_[4][1][1] in prog.bodies:
-                    fcl.append(prog.bodies[d_[4][1][1]])
+            l_ = op_local(a_)
+            for _ in range(5):
+                ds_ = CR.defs().get(l_, [])
+                hit = [d_ for d_ in ds_ if d_[0] == "stmt" and d_[4][0] == "agg" and d_[4][1][0] == "closure" and d_[4][1][1] in prog.bodies]
+                if hit:
+                    fcl.append(prog.bodies[hit[0][4][1][1]])
+                    break
+                # a closure bound to a name first (`let is_present_and_used = |p| ..; .filter(is_present_and_used)`): follow the copy
+                cp = [d_ for d_ in ds_ if d_[0] == "stmt" and d_[4][0] == "use" and op_local(d_[4][1]) is not None]
+                if len(cp) != 1:
+                    break
+                l_ = op_local(cp[0][4][1])
     table = {}
     for ck in (False, True):
         for cu in (False, True):
